@@ -1,4 +1,4 @@
-"""Unit `wiring`: taskiq/cli/worker/run.py::start_listen — the hand-over of the worker's configuration to the Receiver it builds
+"""Unit `wiring`: taskiq/cli/worker/run.py::start_listen and taskiq/receiver/receiver.py::Receiver.__init__ — the hand-over of the worker's configuration to the Receiver it builds
 (C02, C03, C04, C05, C08, C12: those statements are phrased over "max_async_tasks = A", "max_prefetch = P", "the acknowledge type",
 "exception propagation enabled", ... - what the user configures is what `taskiq worker` passes on).
 
@@ -42,4 +42,24 @@ def generate(src):
             else: oblige(s, f"start_listen/receiver option {opt} == args.{field}  [{props}]", to_val(v) == fv, witness={'args.' + field: fv})
             reach(s, f"start_listen/reach@{opt}")
         ex.ev(kws[opt], st, got, {'exc': lambda s, x: oblige(s, f"start_listen/receiver option {opt}: evaluating it raises nothing  [{props}]", BoolVal(False))})
+    # ---------------- Receiver.__init__: the options are stored as given (callback / run_task / prefetcher / runner read them back from self)
+    RREL = 'taskiq/receiver/receiver.py'; init = src.func(RREL, 'Receiver.__init__')
+    class ExI(Exec):
+        def st_For(self, s, st, k, K): return k(st)          # the task-preparation loop (no option is assigned inside a loop: checked below)
+    for lp in [n for n in ast.walk(init) if isinstance(n, (ast.For, ast.While))]:
+        if any(isinstance(x, ast.Attribute) and isinstance(x.ctx, ast.Store) and x.attr in ('validate_params', 'propagate_exceptions', 'ack_time', 'max_tasks_to_execute', 'wait_tasks_timeout') for x in ast.walk(lp)):
+            raise Unsupported("Receiver.__init__: an option is assigned inside a loop")
+    exi = ExI({'logger.*': noop, 'asyncio.Semaphore': opaque('semaphore'), 'set': opaque('set')}); exi.ev_Dict = lambda e, st, k, K: k(st, fresh('dict'))
+    sti = State(); self_a = Int('self_a'); sti.env = {'self': PyObj(self_a)}; params = {}
+    for a_ in init.args.args[1:]: params[a_.arg] = fresh(a_.arg); sti.env[a_.arg] = params[a_.arg]
+    if 'ack_type' in params: sti.pc.append(Or(params['ack_type'] == Val.none, Val.is_ref(params['ack_type'])))          # an enum member (truthy) or None
+    if 'max_async_tasks' in params: sti.pc.append(Or(params['max_async_tasks'] == Val.none, Val.is_intv(params['max_async_tasks'])))
+    def i_ret(s, v):
+        h = s.heap
+        for fld, par, props in (('validate_params', 'validate_params', 'C08'), ('propagate_exceptions', 'propagate_exceptions', 'C12'), ('max_tasks_to_execute', 'max_tasks_to_execute', 'C05'), ('wait_tasks_timeout', 'wait_tasks_timeout', 'C05')):
+            oblige(s, f"Receiver.__init__/post: self.{fld} is the `{par}` the receiver was built with  [{props}]", h.field(fld)[self_a] == params[par] if par in params else BoolVal(False))
+        oblige(s, "Receiver.__init__/post: self.ack_time is the `ack_type` the receiver was built with (when_saved if none was given)  [C02]",
+               Implies(params['ack_type'] != Val.none, h.field('ack_time')[self_a] == params['ack_type']) if 'ack_type' in params else BoolVal(False))
+        reach(s, "Receiver.__init__/reach@return")
+    exi.run(init, sti, i_ret, lambda s, x: None)
     return {'receiver_call_keywords': sorted(kws)}
